@@ -104,6 +104,8 @@ STATEMENTS = [
     'f = v => v + {N}; f({N})', 'f = (a, b) => a + b; f({N}, {N})', 'f = v => v + n; n = {N}; f(1)', 'f = v => {N}; g = v => f(v) + v; g({N})',
     'f = v => v * 2; map({LN}, f)', 'f = v => x; x = {N}; f(0)', 'f = x => x + 1; x = {N}; f(1) + x', 'f = v => {LN}; f(0)[{I}]',
     'x = {LN}; y = x; push(y, {N}); x', 'x = {D}; y = x; y["q"] = {N}; [x, y]', 'x = {LL}; y = x[{I}]; push(y, {N}); x',
+    'x = ⟦"1": 5, "a": 6, "True": 7, "None": 8⟧; remove(x, 1); remove(x, True); remove(x, None); x', 'x = ⟦"1": 5⟧; remove(x, "1"); x',
+    'x = ⟦"2.5": 1⟧; remove(x, 2.5); [x, len(x)]',
     # a callback that changes the dict it is mapped over
     'x = ⟦"a": 1, "b": 2, "c": 3⟧; r = map(x, (k, v) => remove(x, "b")); x', 'x = ⟦"a": 1, "b": 2⟧; map(x, (k, v) => remove(x, "a")); [x, 1]',
     'x = ⟦"a": [1], "b": [2]⟧; map(x, (k, v) => push(x["b"], {N})); x', 'x = ⟦"a": 1, "b": 2⟧; map(x, (k, v) => [__setitem__(x, "b", v + 10), v][1])',
